@@ -7,6 +7,7 @@
 
 pub mod c16;
 pub mod evidence;
+pub mod pool;
 pub mod rng;
 
 pub use rng::{mix64, Rng};
